@@ -13,6 +13,7 @@ NEUTRALS = [{'name': 'first-track guard as j < 1', 'file': 'partitura/io/exportm
 
 # changes made by sub-agents that were given only the property text (see /verif/seeded/<id>/): each must stay reported
 SEEDED = [
+    {'name': 'seeded change C06-r3', 'seed': 'C06-r3', 'expect': '|CARRY|'},
     {'name': 'seeded change C06-r2', 'seed': 'C06-r2', 'expect': '|TEMPO-first|'},
     {'name': 'seeded change C06', 'seed': 'C06', 'expect': '|F7h-read|'},
 ]
